@@ -220,3 +220,136 @@ theorem stronglyConnected_complete (n : Nat) (hn : 0 < n) (a : Mat α)
     exact this
 
 end SkNet.Embedding
+
+/-! ### the specification's Warshall closure computes reachability too -/
+
+namespace SkNet.Embedding
+
+/-- read a boolean matrix -/
+def rget (r : List (List Bool)) (i j : Nat) : Bool := (r.getD i []).getD j false
+
+/-- one Warshall step with pivot `k` -/
+def warshallStep (n : Nat) (r : List (List Bool)) (k : Nat) : List (List Bool) :=
+  tab n fun i => tab n fun j => rget r i j || (rget r i k && rget r k j)
+
+/-- the closure after the pivots `0 .. k-1` -/
+def closureUpTo (n : Nat) (e : Nat → Nat → Bool) (k : Nat) : List (List Bool) :=
+  (List.range k).foldl (warshallStep n) (tab n fun i => tab n fun j => i == j || e i j)
+
+theorem closure_eq (n : Nat) (e : Nat → Nat → Bool) : Spec.closure n e = closureUpTo n e n := rfl
+
+theorem closureUpTo_succ (n : Nat) (e : Nat → Nat → Bool) (k : Nat) :
+    closureUpTo n e (k+1) = warshallStep n (closureUpTo n e k) k := by
+  simp [closureUpTo, List.range_succ, List.foldl_append]
+
+theorem rget_tab (n : Nat) (f : Nat → Nat → Bool) (i j : Nat) (hi : i < n) (hj : j < n) :
+    rget (tab n fun i => tab n fun j => f i j) i j = f i j := by
+  simp only [rget, tab_getD, hi, hj, if_true]
+
+theorem rget_step (n : Nat) (r : List (List Bool)) (k i j : Nat) (hi : i < n) (hj : j < n) :
+    rget (warshallStep n r k) i j = (rget r i j || (rget r i k && rget r k j)) := by
+  unfold warshallStep
+  rw [rget_tab n _ i j hi hj]
+
+/-- Warshall's invariant without paths: after the pivots `< k` the relation is closed under joining at any `m < k` -/
+theorem closureUpTo_join (n : Nat) (e : Nat → Nat → Bool) (k : Nat) (hk : k ≤ n) :
+    ∀ i j m, i < n → j < n → m < k →
+      rget (closureUpTo n e k) i m = true → rget (closureUpTo n e k) m j = true → rget (closureUpTo n e k) i j = true := by
+  induction k with
+  | zero => intro i j m _ _ hm; omega
+  | succ k ih =>
+    have ih' := ih (by omega)
+    have hkn : k < n := by omega
+    intro i j m hi hj hm h1 h2
+    rw [closureUpTo_succ] at h1 h2 ⊢
+    have hmn : m < n := by omega
+    rw [rget_step n _ k i m hi hmn] at h1
+    rw [rget_step n _ k m j hmn hj] at h2
+    rw [rget_step n _ k i j hi hj]
+    simp only [Bool.or_eq_true, Bool.and_eq_true] at h1 h2 ⊢
+    by_cases hmk : m = k
+    · subst hmk
+      have a1 : rget (closureUpTo n e m) i m = true := by
+        rcases h1 with h | ⟨h, _⟩ <;> exact h
+      have a2 : rget (closureUpTo n e m) m j = true := by
+        rcases h2 with h | ⟨_, h⟩ <;> exact h
+      exact Or.inr ⟨a1, a2⟩
+    · have hm' : m < k := by omega
+      rcases h1 with h1 | ⟨h1a, h1b⟩ <;> rcases h2 with h2 | ⟨h2a, h2b⟩
+      · exact Or.inl (ih' i j m hi hj hm' h1 h2)
+      · exact Or.inr ⟨ih' i k m hi hkn hm' h1 h2a, h2b⟩
+      · exact Or.inr ⟨h1a, ih' k j m hkn hj hm' h1b h2⟩
+      · exact Or.inr ⟨h1a, h2b⟩
+
+theorem closureUpTo_mono (n : Nat) (e : Nat → Nat → Bool) (k i j : Nat) (hi : i < n) (hj : j < n)
+    (h : rget (closureUpTo n e 0) i j = true) : rget (closureUpTo n e k) i j = true := by
+  induction k with
+  | zero => exact h
+  | succ k ih =>
+    rw [closureUpTo_succ, rget_step n _ k i j hi hj, ih]
+    rfl
+
+/-- every entry of the closure is witnessed by a path -/
+theorem closureUpTo_sound (n : Nat) (e : Nat → Nat → Bool) (k : Nat) (hk : k ≤ n) :
+    ∀ i j, i < n → j < n → rget (closureUpTo n e k) i j = true → Reach n e i j := by
+  induction k with
+  | zero =>
+    intro i j hi hj h
+    simp only [closureUpTo, List.range_zero, List.foldl_nil] at h
+    rw [rget_tab n _ i j hi hj] at h
+    simp only [Bool.or_eq_true, beq_iff_eq] at h
+    rcases h with h | h
+    · subst h; exact Reach.refl hi
+    · exact Reach.step (Reach.refl hi) h hj
+  | succ k ih =>
+    intro i j hi hj h
+    have hkn : k < n := by omega
+    rw [closureUpTo_succ, rget_step n _ k i j hi hj] at h
+    simp only [Bool.or_eq_true, Bool.and_eq_true] at h
+    rcases h with h | ⟨h1, h2⟩
+    · exact ih (by omega) i j hi hj h
+    · exact (ih (by omega) i k hi hkn h1).trans (ih (by omega) k j hkn hj h2)
+
+/-- **the Warshall closure of the specification is reachability** -/
+theorem closure_iff_reach (n : Nat) (e : Nat → Nat → Bool) (i j : Nat) (hi : i < n) (hj : j < n) :
+    rget (Spec.closure n e) i j = true ↔ Reach n e i j := by
+  rw [closure_eq]
+  constructor
+  · exact closureUpTo_sound n e n (Nat.le_refl n) i j hi hj
+  · intro h
+    induction h with
+    | refl hu =>
+      apply closureUpTo_mono n e n _ _ hu hu
+      simp only [closureUpTo, List.range_zero, List.foldl_nil]
+      rw [rget_tab n _ _ _ hu hu]; simp
+    | step hr he hw ih =>
+      rename_i v w
+      have hv := (Reach.left_lt hr).2
+      have hedge : rget (closureUpTo n e n) v w = true := by
+        apply closureUpTo_mono n e n v w hv hw
+        simp only [closureUpTo, List.range_zero, List.foldl_nil]
+        rw [rget_tab n _ v w hv hw]; simp [he]
+      exact closureUpTo_join n e n (Nat.le_refl n) i w v hi hw hv (ih hv) hedge
+
+variable {α : Type} [Zero α] [BEq α]
+
+/-- the two connectivity tests (model: relaxation rounds; specification: Warshall closure) agree -/
+theorem spec_stronglyConnected_eq (n : Nat) (hn : 0 < n) (a : Mat α) :
+    Spec.stronglyConnected n a = stronglyConnected n a := by
+  have hspec : Spec.stronglyConnected n a = true ↔ ∀ u v, u < n → v < n → Reach n (nzEdge a) u v := by
+    unfold Spec.stronglyConnected
+    simp only [List.all_eq_true, List.mem_range]
+    constructor
+    · intro h u v hu hv
+      exact (closure_iff_reach n (nzEdge a) u v hu hv).mp (h u hu v hv)
+    · intro h u hu v hv
+      exact (closure_iff_reach n (nzEdge a) u v hu hv).mpr (h u v hu hv)
+  have hmod : stronglyConnected n a = true ↔ ∀ u v, u < n → v < n → Reach n (nzEdge a) u v :=
+    ⟨fun h u v hu hv => stronglyConnected_sound n hn a h u v hu hv, stronglyConnected_complete n hn a⟩
+  cases h1 : Spec.stronglyConnected n a <;> cases h2 : stronglyConnected n a
+  · rfl
+  · exact absurd (hspec.mpr (hmod.mp h2)) (by rw [h1]; decide)
+  · exact absurd (hmod.mpr (hspec.mp h1)) (by rw [h2]; decide)
+  · rfl
+
+end SkNet.Embedding
